@@ -123,6 +123,7 @@ type vChainRun struct {
 	withCancel bool
 	deep       int // the first `deep` handlers may call Next() twice, the others at most once
 	share      *vChainRun
+	refBody    []byte // reference run: what must reach the client, in order
 }
 
 func (r *vChainRun) ev(e int) { r.events = append(r.events, e) }
@@ -180,12 +181,14 @@ func (r *vChainRun) refHandler(i int) {
 	r.ev(i + 1)
 	if b.pre {
 		r.written = true
+		r.refBody = append(r.refBody, 'p')
 	}
 	for k := 0; k < b.nNext; k++ {
 		r.refRun()
 	}
 	if b.post {
 		r.written = true
+		r.refBody = append(r.refBody, 'q')
 	}
 	if b.cancel {
 		r.cancelled = true
@@ -193,6 +196,7 @@ func (r *vChainRun) refHandler(i int) {
 	r.ev(-(i + 1))
 	if b.kind == 1 && b.retBody {
 		r.written = true // the returned value is rendered before the chain goes on
+		r.refBody = append(r.refBody, 'r')
 	}
 }
 
@@ -328,5 +332,8 @@ func VH_C03_chain() {
 	}
 	vx.Assert(same, "C03: handlers start in chain order, each at most once, none skipped; Next() runs the remainder inside the call; the chain advances on its own only while nothing is written and the context is not cancelled")
 	vx.Assert((spy.headers > 0) == ref.written, "C03: something reached the client iff a handler wrote or returned a body")
+	if method != "HEAD" {
+		vx.Assert(string(spy.body) == string(ref.refBody), "C03: what the handlers wrote and returned reaches the client, in chain order (a returned value is rendered whatever was written before)")
+	}
 	vx.Observe("chain", impl.events, spy.headers, spy.bytes)
 }
